@@ -161,6 +161,11 @@ impl Scenario for ShuffleScenario {
         if self.tampered {
             p["corrupt"] = json!(r.below(3));
             p["site_seed"] = json!(r.next_u64() >> 12);
+            // "adaptive": H2 or H3 waits until it can know the MAC keys (they are opened per shard) and only then forges a record of
+            // the last table it streams (c1 resp. c2) on some shard
+            if r.chance(1, 4) {
+                p["attack"] = json!("adaptive");
+            }
         }
         p["sched"] = SchedSpec::draw(&mut r, est, 3_000_000);
         p
@@ -199,6 +204,7 @@ struct OneRun {
     nodes: BTreeMap<(usize, usize), NodeRes>,
     inv: BTreeMap<ChanKey, ChanStat>,
     fired: Vec<Value>,
+    forge_too_early: u64,
 }
 
 macro_rules! make_exec {
@@ -250,7 +256,7 @@ macro_rules! make_exec {
                 }
             });
             let t = tamper.log.lock().unwrap();
-            OneRun { outcome, nodes: log.lock().unwrap().clone(), inv: t.chans.clone(), fired: t.fired.clone() }
+            OneRun { outcome, nodes: log.lock().unwrap().clone(), inv: t.chans.clone(), fired: t.fired.clone(), forge_too_early: t.forge_too_early }
         }
 
         fn $name<S: Row>(p: &Value, explicit: Option<Vec<u32>>, tampered: bool) -> RunRes {
@@ -297,8 +303,18 @@ macro_rules! make_exec {
             // -------- tampered run: same seed, one rewritten chunk of the corrupt helper --------
             let corrupt = pu(p, "corrupt");
             let mut sr = Rng::sub(pu64(p, "site_seed"), 0);
+            let adaptive = p.get("attack").and_then(Value::as_str) == Some("adaptive");
             let site = match p.get("site") {
                 Some(s) if !s.is_null() => Some(Site::from_json(s)),
+                _ if adaptive => {
+                    // one of the corrupt helper's last table streams (one per shard that has rows): x2 for H1, c1 for H2, c2 for H3
+                    let last = if corrupt == 0 { "/transfer_x_y" } else { "/transfer_c" };
+                    let cands: Vec<&ChanKey> = honest.inv.iter().filter(|(k, st)| k.kind == "mpc" && k.src == corrupt && k.gate.ends_with(last) && st.bytes > 0).map(|(k, _)| k).collect();
+                    if cands.is_empty() { None } else {
+                        let chan = cands[sr.below(cands.len())].clone();
+                        Some(Site { chan, chunk: 0, offset: 0, pattern: format!("forge_mac:{}", <S as MaliciousShuffleable>::TAG_OFFSET + 4), stream_off: None })
+                    }
+                }
                 _ => draw_site(&honest.inv, &|k: &ChanKey| k.sender_helper() == corrupt, &mut sr,
                     &["flip:0", "flip:3", "flip:7", "add1", "set0", "setff", "trunc:1", "extend:1"]),
             };
@@ -306,7 +322,31 @@ macro_rules! make_exec {
                 return RunRes::inconclusive("no_site", "no channel of the corrupt helper in the inventory".into(), shape, Some(honest.outcome));
             };
             let bad = $run::<S>(p, &spec, &values, Some(site.clone()));
+            if adaptive && bad.fired.is_empty() {
+                // the keys were never known to the corrupt helper while its table was still going out: no opportunity
+                let mut r = RunRes::pass(shape, true, Some(bad.outcome.clone()));
+                r.probe("adaptive_no_opportunity", 1);
+                r.probe("adaptive_chunks_before_keys", bad.forge_too_early);
+                r.extra = json!({"site": site.to_json()});
+                return r;
+            }
             let mut res = judge_tampered(&bad, &values, shards, corrupt, &site, &shape);
+            if adaptive {
+                res.fault("F1_adaptive_forgery_with_opened_keys", 1);
+                let flag = |k: &str| bad.fired.iter().any(|f| f.get(k).and_then(Value::as_bool) == Some(true));
+                let (by_recipient, by_third) = (flag("key_opened_here_by_recipient"), flag("key_opened_here_by_third_helper"));
+                let origin = if by_recipient { "recipient" } else if by_third { "third_helper" } else { "another_shard" };
+                res.probe(&format!("adaptive_keys_from_{origin}"), 1);
+                if res.verdict == Verdict::Violation {
+                    // where did the corrupt helper's knowledge of the keys come from?
+                    //  recipient     : the helper still waiting for this very table had already opened its key share
+                    //  third_helper  : only the helper that takes no part in this exchange had (it finishes earlier)
+                    //  another_shard : nobody on this shard had; the keys are shared by all shards and opened per shard
+                    res.class = format!("shuffle_forgery_keys_from_{origin}");
+                    res.detail = format!("{} [adaptive: helper {} held this table back until it could know the MAC keys (opened to it by: {origin}), then added a change that every tag check is blind to]",
+                        res.detail, corrupt + 1);
+                }
+            }
             res.extra = json!({"site": site.to_json(), "fired": bad.fired, "inventory_channels": honest.inv.len()});
             res
         }
